@@ -5,8 +5,10 @@ package main
 
 import (
 	"fmt"
+	"go/constant"
 	"go/token"
 	"go/types"
+	"strings"
 
 	"golang.org/x/tools/go/ssa"
 )
@@ -31,7 +33,6 @@ func decoderFuncs(P *Prog, which string) []*ssa.Function {
 			add("rtcm/"+fam+"/satellite", "GetSatelliteCells")
 			add("rtcm/"+fam+"/signal", "GetSignalCells")
 		}
-		add("rtcm/utils", "GetNumberOfSignalCells")
 	} else {
 		add("rtcm/type1005", "GetMessage")
 		add("rtcm/type1006", "GetMessage")
@@ -127,8 +128,724 @@ func rulePaddingNonInterference(c *Ctx, rule string, fns []*ssa.Function) {
 	}
 }
 
+
+func provEq(A *Aff, b *ssa.BasicBlock, x, y *Lin) bool {
+	return x.Equal(y) || (A.Prove(b, GE(x, y)) && A.Prove(b, LE(x, y)))
+}
+
 func checkC04(c *Ctx) {
-	c.Explanation = "partial (being built): padding non-interference of the MSM decoders."
-	c.NotDecided = "layout rules pending"
-	rulePaddingNonInterference(c, "C04-R5", decoderFuncs(c.P, "msm"))
+	c.Explanation = "Decides that the MSM4/MSM7 decoders read the standard's layout into the right fields: (R1) the bit reads of the header reader (type at bit 24, then 11 fixed fields and the Nsat*Nsig cell mask), of the two satellite-cell readers and of the two signal-cell readers are, in control-flow order, exactly the oracle's fields — width, signedness, one contiguous field array per field repeated Nsat (satellites) resp. NumSignalCells (signals) times, starting where the previous section ended (header end; satellites start + Nsat*cell length); (R2) each read value reaches the like-named struct field through the constructor; (R3) mask expansion: satellite mask 64 bits and signal mask 32 bits scanned from the most significant bit with ids 1..64 / 1..32, cell mask of Nsat*Nsig bits row-major (satellite-major), rejected above 64 bits; (R4) attachment: every signal cell is built from Signals[j], &satCells[i] and the c-th entry of every field array, c advancing exactly once per constructed cell and only for cells whose mask bit is set, appended to signalCells[i]; (R5) padding non-interference: the frame length influences nothing but error exits; (R6) rejection sites are exactly the allowed reasons; (R7) each family decodes exactly its own message types."
+	c.NotDecided = "the bit reader's arithmetic (C14); the numerical result of the mask-to-list loops beyond their structure; that a cell mask with fewer set bits than cells in the data is well formed (the standard says the mask describes the message)."
+	P := c.P
+	or, err := loadLayoutOracle(c.Verifdir)
+	if err != nil {
+		c.Fail("C04-oracle", "layout.json", token.NoPos, "unresolved", err.Error())
+		return
+	}
+	A := NewAff(P)
+	hl := newHeaderLemma(c, "C04-R3")
+	A.LemmaFacts = func(a *Aff, fn *ssa.Function) []Con { return hl.facts(a, fn) }
+	// ---- header
+	getHdr := P.Func("rtcm/header", "GetMSMHeader")
+	newHdr := P.Func("rtcm/header", "New")
+	var typeFn *ssa.Function
+	var typeCall *ssa.Call
+	if getHdr != nil {
+		eachInstr(getHdr, func(ins ssa.Instruction) {
+			if call, ok := ins.(*ssa.Call); ok {
+				if f := call.Call.StaticCallee(); f != nil && f.Pkg == getHdr.Pkg && f.Signature.Results().Len() == 3 && len(f.Params) == 1 {
+					typeFn, typeCall = f, call
+				}
+			}
+		})
+	}
+	if getHdr == nil || newHdr == nil || typeFn == nil {
+		c.Unresolved("C04-R1", "header.GetMSMHeader / header.New / MSM type reader")
+		return
+	}
+	hsec := or.Sections["msm_header"]
+	// type read
+	tr := extractReads(P, A, typeFn, typeFn.Params[0])
+	okT := len(tr) == 1 && tr[0].posLin.Equal(LinConst(or.LeaderBits)) && !tr[0].signed
+	if okT {
+		k, isC := tr[0].width.IsConst()
+		okT = isC && k == hsec[0].Width
+		// returned as result 0 together with position 24+12
+		for _, r := range returnsOf(typeFn) {
+			if isNilConst(r.Results[2]) {
+				if stripConv(r.Results[0]) != ssa.Value(tr[0].call) || !A.Lin(r.Results[1]).Equal(LinConst(or.LeaderBits+hsec[0].Width)) {
+					okT = false
+				}
+			}
+		}
+	}
+	pos0 := token.NoPos
+	if len(tr) > 0 {
+		pos0 = tr[0].call.Pos()
+	}
+	c.Check(okT, "C04-R1", "header:field#1(MessageType)", pos0, "12 unsigned bits at bit 24, returned with next position 36", "the MSM type is not read as 12 unsigned bits at bit 24 / next position is not 36")
+	// its destination
+	var typeVal ssa.Value
+	for _, r := range referrers(typeCall) {
+		if ex, ok := r.(*ssa.Extract); ok && ex.Index == 0 {
+			typeVal = ex
+		}
+	}
+	d := []string{}
+	if typeVal != nil {
+		d = traceDest(P, typeVal)
+	}
+	c.Check(len(d) == 1 && d[0] == "MessageType", "C04-R2", "header:dest(MessageType)", typeCall.Pos(), "type value stored in Header.MessageType", fmt.Sprintf("the type value reaches %v", d))
+	hreads := extractReads(P, A, getHdr, getHdr.Params[0])
+	checkStraightLayoutP(c, "C04-R1", "header", A, hreads, hsec[1:], or.LeaderBits+hsec[0].Width, true)
+	// cell mask width = len(satellites)*len(signals) of the expansions of the two masks just read
+	if len(hreads) == len(hsec)-1 {
+		last := hreads[len(hreads)-1]
+		okW := false
+		if cv, ok := last.call.Call.Args[2].(*ssa.Convert); ok {
+			if mul, ok := cv.X.(*ssa.BinOp); ok && mul.Op == token.MUL {
+				l1, ok1 := mul.X.(*ssa.Call)
+				l2, ok2 := mul.Y.(*ssa.Call)
+				if ok1 && ok2 {
+					s1, _ := l1.Call.Args[0].(*ssa.Call)
+					s2, _ := l2.Call.Args[0].(*ssa.Call)
+					if s1 != nil && s2 != nil && s1.Call.StaticCallee() != nil && s2.Call.StaticCallee() != nil {
+						// arguments are the satellite and signal mask reads
+						a1 := stripConv(s1.Call.Args[0])
+						a2 := stripConv(s2.Call.Args[0])
+						if a1 == ssa.Value(hreads[len(hreads)-3].call) && a2 == ssa.Value(hreads[len(hreads)-2].call) {
+							okW = true
+						}
+					}
+				}
+			}
+		}
+		c.Check(okW, "C04-R1", "header:cell-mask-width", last.call.Pos(), "cell mask width = Nsat * Nsig from the two masks just read", "the cell mask width is not len(satellites)*len(signals) of the masks just read")
+		// returned position = end of the cell mask
+		for _, r := range returnsOf(getHdr) {
+			if isNilConst(r.Results[2]) {
+				c.Check(provEq(A, r.Block(), A.Lin(r.Results[1]), last.posLin.Add(last.width)), "C04-R1", "header:end-position", r.Pos(), "returned position = end of the cell mask", "the position returned by the header reader is not the end of the cell mask")
+			}
+		}
+		// > 64 rejected
+		rej := false
+		eachInstr(getHdr, func(ins ssa.Instruction) {
+			if ifi, ok := ins.(*ssa.If); ok {
+				if bo, ok := ifi.Cond.(*ssa.BinOp); ok && bo.Op == token.GTR && bo.X == last.call.Call.Args[2] {
+					if k, isC := constInt(bo.Y); isC && k == 64 && isErrorGate(ifi) {
+						rej = true
+					}
+				}
+			}
+		})
+		c.Check(rej, "C04-R3", "header:cell-mask<=64", last.call.Pos(), "cell masks longer than 64 bits are rejected", "the 64-bit limit of the cell mask is not enforced (or has another value)")
+	}
+	// New stores every parameter into the like-named field
+	for i, p := range newHdr.Params {
+		if i >= len(hsec) {
+			break
+		}
+		got := ctorFieldOfParam(newHdr, i)
+		c.Check(got == hsec[i].Name, "C04-R2", "header.New:param("+p.Name()+")", newHdr.Pos(), "stored in "+hsec[i].Name, fmt.Sprintf("header.New stores parameter %s in field %q, expected %s", p.Name(), got, hsec[i].Name))
+	}
+	// ---- mask expansion
+	checkMaskExpansion(c, "C04-R3", A, newHdr)
+	// ---- satellites and signals
+	var tabs [2]TySet
+	for fi, fam := range []string{"msm4", "msm7"} {
+		pkg := "rtcm/type_" + fam
+		sat := P.Func(pkg+"/satellite", "GetSatelliteCells")
+		sig := P.Func(pkg+"/signal", "GetSignalCells")
+		msg := P.Func(pkg+"/message", "GetMessage")
+		if sat == nil || sig == nil || msg == nil {
+			c.Unresolved("C04-R1", pkg+" decoders")
+			continue
+		}
+		_ = tabs[fi]
+		sreads := extractReads(P, A, sat, sat.Params[0])
+		checkLoopedLayout(c, "C04-R1", fam+":satellite", A, sreads, or.Sections[fam+"_sat"], sat.Params[1], A.LenOf(sat.Params[2]))
+		// satellite id: Satellites[i] -> ID
+		checkSatelliteAttachment(c, "C04-R4", fam, sat)
+		// signal section: bound = the header's NumSignalCells
+		greads := extractReads(P, A, sig, sig.Params[0])
+		var nLin *Lin
+		eachInstr(sig, func(ins ssa.Instruction) {
+			if u, ok := ins.(*ssa.UnOp); ok {
+				if f, base := loadedField(u); f == hl.numCells && root(base) == ssa.Value(sig.Params[2]) && nLin == nil {
+					nLin = A.Lin(u)
+				}
+			}
+		})
+		if nLin == nil {
+			c.Fail("C04-R1", fam+":signal:count", sig.Pos(), "refuted", "the signal decoder does not take the number of signal cells from the header's cell mask (NumSignalCells)")
+			nLin = LinSym("?")
+		}
+		checkLoopedLayout(c, "C04-R1", fam+":signal", A, greads, or.Sections[fam+"_sig"], sig.Params[1], nLin)
+		checkSignalAttachment(c, "C04-R4", fam, A, hl, sig, greads)
+		// section starts in the family's GetMessage
+		checkSectionStarts(c, "C04-R1", fam, A, msg, getHdr, sat, sig, or.sum(fam+"_sat"))
+		// CellLengthInBits constant
+		if k := P.Const(pkg+"/satellite", "CellLengthInBits"); k != nil {
+			v, _ := constant.Int64Val(constant.ToInt(k.Val()))
+			c.Check(v == or.sum(fam+"_sat"), "C04-R1", fam+":const(CellLengthInBits)", k.Pos(), fmt.Sprintf("== %d", or.sum(fam+"_sat")), fmt.Sprintf("satellite CellLengthInBits is %d, the layout sums to %d", v, or.sum(fam+"_sat")))
+		}
+	}
+	// ---- R5
+	rulePaddingNonInterference(c, "C04-R5", decoderFuncs(P, "msm"))
+	// ---- R6
+	checkMSMRejections(c, "C04-R6", A, hl)
+	// ---- R7
+	if cor, err := loadClassOracle(c.Verifdir); err == nil {
+		T := NewTables(P)
+		m4, m7 := SetOf(cor.MSM4...), SetOf(cor.MSM7...)
+		ruleFamilyGates(c, T, "C04-R7", m4, m7, m4.Or(m7))
+	}
+	c.MinInstances("C04-R1", 36)
+	c.MinInstances("C04-R2", 14)
+	c.MinInstances("C04-R3", 5)
+	c.MinInstances("C04-R4", 10)
+	c.MinInstances("C04-R5", 8)
+	c.MinInstances("C04-R6", 8)
+	c.MinInstances("C04-R7", 6)
+}
+
+// checkStraightLayoutP: like checkStraightLayout but positions are compared by entailment.
+func checkStraightLayoutP(c *Ctx, rule, label string, A *Aff, reads []fieldRead, section []oracleField, startBit int64, lastSymbolic bool) {
+	if len(reads) != len(section) {
+		c.Fail(rule, label+":field-count", token.NoPos, "refuted", fmt.Sprintf("%s: %d bit reads found, the layout has %d fields", label, len(reads), len(section)))
+		return
+	}
+	pos := LinConst(startBit)
+	for i, r := range reads {
+		of := section[i]
+		key := fmt.Sprintf("%s:field#%d(%s)", label, i+2, of.Name)
+		var problems []string
+		symbolic := of.Width == 0 && lastSymbolic && i == len(section)-1
+		if k, isC := r.width.IsConst(); !symbolic && (!isC || k != of.Width) {
+			problems = append(problems, fmt.Sprintf("width %s, layout says %d", r.width.String(), of.Width))
+		}
+		if !provEq(A, r.call.Block(), r.posLin, pos) {
+			problems = append(problems, fmt.Sprintf("read at bit %s, the previous field ends at bit %s (gap or overlap)", r.posLin.String(), pos.String()))
+		}
+		if r.signed != of.Signed {
+			problems = append(problems, fmt.Sprintf("read as signed=%v, layout says signed=%v", r.signed, of.Signed))
+		}
+		if len(r.dest) != 1 || r.dest[0] != of.Name {
+			problems = append(problems, fmt.Sprintf("value reaches field(s) %v, layout says %s", r.dest, of.Name))
+		}
+		if r.header != nil {
+			problems = append(problems, "read inside a loop")
+		}
+		c.Check(len(problems) == 0, rule, key, r.call.Pos(), fmt.Sprintf("bits [%s,+%s) -> %s", pos.String(), r.width.String(), of.Name), label+" field "+of.Name+": "+strings.Join(problems, "; "))
+		pos = pos.Add(r.width)
+	}
+}
+
+// checkMaskExpansion: getSatellites/getSignals scan their mask from the most
+// significant bit, ids 1..width.
+func checkMaskExpansion(c *Ctx, rule string, A *Aff, newHdr *ssa.Function) {
+	P := c.P
+	for _, m := range []struct {
+		field string
+		width int64
+	}{{"Satellites", 64}, {"Signals", 32}} {
+		var exp *ssa.Function
+		eachInstr(newHdr, func(ins ssa.Instruction) {
+			if st, ok := ins.(*ssa.Store); ok {
+				if f, _ := fieldOf(st.Addr); f != nil && f.Name() == m.field {
+					if call, ok := st.Val.(*ssa.Call); ok {
+						exp = call.Call.StaticCallee()
+					}
+				}
+			}
+		})
+		if exp == nil || !P.InModule(exp) {
+			c.Fail(rule, "mask-expansion("+m.field+")", newHdr.Pos(), "unresolved", "mask expander for "+m.field+" not found")
+			continue
+		}
+		// loop n from 1 while n <= width; bit = (mask >> (width-n)) & 1; if bit==1 append uint(n)
+		ok := false
+		var why []string
+		hdr := (*ssa.BasicBlock)(nil)
+		var n *ssa.Phi
+		for _, b := range exp.Blocks {
+			for _, ins := range b.Instrs {
+				if phi, isPhi := ins.(*ssa.Phi); isPhi && isInteger(phi.Type()) {
+					for i, e := range phi.Edges {
+						if !b.Dominates(b.Preds[i]) {
+							if k, isC := constInt(e); isC && k == 1 {
+								n, hdr = phi, b
+							}
+						}
+					}
+				}
+			}
+		}
+		if n == nil {
+			why = append(why, "no loop variable starting at 1")
+		} else {
+			ifi, _ := lastInstr(hdr).(*ssa.If)
+			okBound := false
+			if ifi != nil {
+				if cmp, isB := ifi.Cond.(*ssa.BinOp); isB && cmp.X == ssa.Value(n) {
+					if k, isC := constInt(cmp.Y); isC && ((cmp.Op == token.LEQ && k == m.width) || (cmp.Op == token.LSS && k == m.width+1)) {
+						okBound = true
+					}
+				}
+			}
+			if !okBound {
+				why = append(why, fmt.Sprintf("loop does not run n = 1..%d", m.width))
+			}
+			okStep := false
+			for i, e := range n.Edges {
+				if hdr.Dominates(hdr.Preds[i]) {
+					if k, isC := A.Lin(e).Sub(LinSym(A.sym(n))).IsConst(); isC && k == 1 {
+						okStep = true
+					}
+				}
+			}
+			if !okStep {
+				why = append(why, "loop variable is not advanced by one")
+			}
+			okShift, okApp := false, false
+			eachInstr(exp, func(ins ssa.Instruction) {
+				switch x := ins.(type) {
+				case *ssa.BinOp:
+					if x.Op == token.SHR && x.X == ssa.Value(exp.Params[0]) {
+						if A.Lin(x.Y).Equal(LinConst(m.width).Sub(LinSym(A.sym(n)))) {
+							// result masked with 1 and compared with 1
+							okShift = true
+						}
+					}
+				case *ssa.Call:
+					if _, el, isApp := appendOne(x); isApp && stripConv(el) == ssa.Value(n) {
+						// under bit == 1
+						for _, f := range dominatingFacts(x.Block()) {
+							if bo, isB := f.Cond.(*ssa.BinOp); isB && bo.Op == token.EQL && f.Val {
+								if k, isC := constInt(bo.Y); isC && k == 1 {
+									okApp = true
+								}
+							}
+						}
+					}
+				}
+			})
+			if !okShift {
+				why = append(why, fmt.Sprintf("bit tested is not mask >> (%d - n)", m.width))
+			}
+			if !okApp {
+				why = append(why, "the id appended is not n under bit == 1")
+			}
+			ok = okBound && okStep && okShift && okApp
+		}
+		c.Check(ok, rule, "mask-expansion("+m.field+")", exp.Pos(), fmt.Sprintf("ids 1..%d, id n <-> bit %d-n (most significant bit first)", m.width, m.width), "mask expansion of "+m.field+": "+strings.Join(why, "; "))
+	}
+}
+
+// checkSatelliteAttachment: New(Satellites[i], F1[i], F2[i], ...) with one index.
+func checkSatelliteAttachment(c *Ctx, rule, fam string, sat *ssa.Function) {
+	var ctor *ssa.Call
+	eachInstr(sat, func(ins ssa.Instruction) {
+		if call, ok := ins.(*ssa.Call); ok {
+			if f := call.Call.StaticCallee(); f != nil && f.Name() == "New" && f.Pkg == sat.Pkg {
+				ctor = call
+			}
+		}
+	})
+	if ctor == nil {
+		c.Fail(rule, fam+":satellite:constructor", sat.Pos(), "unresolved", "satellite cell constructor call not found")
+		return
+	}
+	var idx ssa.Value
+	same := true
+	idOK := false
+	for j, a := range ctor.Call.Args {
+		ld, ok := a.(*ssa.UnOp)
+		if !ok || ld.Op != token.MUL {
+			continue
+		}
+		ia, ok := ld.X.(*ssa.IndexAddr)
+		if !ok {
+			continue
+		}
+		if idx == nil {
+			idx = ia.Index
+		} else if ia.Index != idx {
+			same = false
+		}
+		if j == 0 && ia.X == ssa.Value(sat.Params[2]) && ctorFieldOfParam(ctor.Call.StaticCallee(), 0) == "ID" {
+			idOK = true
+		}
+	}
+	c.Check(same && idx != nil, rule, fam+":satellite:one-index", ctor.Pos(), "all field arrays and the id list are indexed by the same satellite index", "satellite cell fields are taken from different positions of their arrays")
+	c.Check(idOK, rule, fam+":satellite:id", ctor.Pos(), "cell ID = Satellites[i]", "the satellite id is not Satellites[i]")
+	// appended in index order
+	app := false
+	for _, r := range referrers(ctor) {
+		if ld, ok := r.(*ssa.UnOp); ok {
+			if len(traceAppend(ld)) > 0 {
+				app = true
+			}
+		}
+	}
+	c.Check(app, rule, fam+":satellite:appended", ctor.Pos(), "each constructed cell is appended to the result in order", "constructed satellite cells are not appended to the result")
+}
+
+func traceAppend(v ssa.Value) []*ssa.Call {
+	var out []*ssa.Call
+	for _, r := range referrers(v) {
+		if st, ok := r.(*ssa.Store); ok && st.Val == v {
+			if ia, ok := st.Addr.(*ssa.IndexAddr); ok {
+				if al, ok := ia.X.(*ssa.Alloc); ok {
+					for _, r2 := range referrers(al) {
+						if sl, ok := r2.(*ssa.Slice); ok {
+							for _, r3 := range referrers(sl) {
+								if call, ok := r3.(*ssa.Call); ok {
+									if b, ok := call.Call.Value.(*ssa.Builtin); ok && b.Name() == "append" {
+										out = append(out, call)
+									}
+								}
+							}
+						}
+					}
+				}
+			}
+		}
+	}
+	return out
+}
+
+// checkSignalAttachment (C04-R4).
+func checkSignalAttachment(c *Ctx, rule, fam string, A *Aff, hl *headerLemma, sig *ssa.Function, reads []fieldRead) {
+	var ctor *ssa.Call
+	eachInstr(sig, func(ins ssa.Instruction) {
+		if call, ok := ins.(*ssa.Call); ok {
+			if f := call.Call.StaticCallee(); f != nil && f.Name() == "New" && f.Pkg == sig.Pkg {
+				ctor = call
+			}
+		}
+	})
+	if ctor == nil {
+		c.Fail(rule, fam+":signal:constructor", sig.Pos(), "unresolved", "signal cell constructor call not found")
+		return
+	}
+	hdrP, satP := sig.Params[2], sig.Params[3]
+	ctorFn := ctor.Call.StaticCallee()
+	// classify arguments
+	var cIdx ssa.Value
+	sameC := true
+	var iIdx, jIdx ssa.Value
+	okSigID, okSat := false, false
+	nArr := 0
+	for j, a := range ctor.Call.Args {
+		fld := ctorFieldOfParam(ctorFn, j)
+		switch x := a.(type) {
+		case *ssa.IndexAddr:
+			// &satCells[i]
+			if x.X == ssa.Value(satP) && fld == "Satellite" {
+				okSat = true
+				iIdx = x.Index
+			}
+		case *ssa.UnOp:
+			if x.Op != token.MUL {
+				continue
+			}
+			ia, ok := x.X.(*ssa.IndexAddr)
+			if !ok {
+				continue
+			}
+			if f, base := loadedField(ia.X); f == hl.sigs && root(base) == ssa.Value(hdrP) {
+				if fld == "ID" {
+					okSigID = true
+					jIdx = ia.Index
+				}
+				continue
+			}
+			// a field array element
+			nArr++
+			if cIdx == nil {
+				cIdx = ia.Index
+			} else if ia.Index != cIdx {
+				sameC = false
+			}
+		}
+	}
+	c.Check(okSigID, rule, fam+":signal:id=Signals[j]", ctor.Pos(), "signal id = header.Signals[j]", "the signal id is not header.Signals[j]")
+	c.Check(okSat, rule, fam+":signal:satellite=&satCells[i]", ctor.Pos(), "satellite = &satCells[i]", "the cell is not attached to &satCells[i]")
+	c.Check(sameC && nArr == len(reads), rule, fam+":signal:one-cell-index", ctor.Pos(), fmt.Sprintf("all %d field arrays are indexed by the same cell counter", nArr), "signal cell fields are taken from different positions of their field arrays")
+	// i and j are the range indexes over header.Cells and header.Cells[i]
+	isRangeOver := func(idx ssa.Value, over func(ssa.Value) bool) bool {
+		add, ok := idx.(*ssa.BinOp)
+		if !ok {
+			return false
+		}
+		phi, ok := add.X.(*ssa.Phi)
+		if !ok || !strings.Contains(phi.Comment, "rangeindex") {
+			return false
+		}
+		ifi, ok := lastInstr(phi.Block()).(*ssa.If)
+		if !ok {
+			return false
+		}
+		cmp, ok := ifi.Cond.(*ssa.BinOp)
+		if !ok {
+			return false
+		}
+		ln, ok := cmp.Y.(*ssa.Call)
+		if !ok {
+			return false
+		}
+		return over(ln.Call.Args[0])
+	}
+	iOK := iIdx != nil && isRangeOver(iIdx, func(v ssa.Value) bool { f, base := loadedField(v); return f == hl.cells && root(base) == ssa.Value(hdrP) })
+	jOK := jIdx != nil && isRangeOver(jIdx, func(v ssa.Value) bool {
+		ld, ok := v.(*ssa.UnOp)
+		if !ok {
+			return false
+		}
+		ia, ok := ld.X.(*ssa.IndexAddr)
+		if !ok || ia.Index != iIdx {
+			return false
+		}
+		f, base := loadedField(ia.X)
+		return f == hl.cells && root(base) == ssa.Value(hdrP)
+	})
+	c.Check(iOK && jOK, rule, fam+":signal:loop-nest", ctor.Pos(), "i ranges over header.Cells (satellites), j over header.Cells[i] (signals)", "the attachment loops do not range over the cell mask rows and columns")
+	// guarded by Cells[i][j] and by c < numSignalCells
+	maskOK := false
+	for _, f := range dominatingFacts(ctor.Block()) {
+		if ld, ok := f.Cond.(*ssa.UnOp); ok && ld.Op == token.MUL && f.Val {
+			if ia, ok := ld.X.(*ssa.IndexAddr); ok && ia.Index == jIdx {
+				if row, ok := ia.X.(*ssa.UnOp); ok {
+					if ia2, ok := row.X.(*ssa.IndexAddr); ok && ia2.Index == iIdx {
+						if fv, _ := loadedField(ia2.X); fv == hl.cells {
+							maskOK = true
+						}
+					}
+				}
+			}
+		}
+	}
+	c.Check(maskOK, rule, fam+":signal:mask-guard", ctor.Pos(), "a cell is built only where header.Cells[i][j] is set", "signal cells are built for cells whose mask bit is not tested")
+	// the counter advances by exactly one on the constructing path and nowhere else
+	incOK := false
+	if phi, ok := cIdx.(*ssa.Phi); ok {
+		web := map[ssa.Value]bool{}
+		var collect func(v ssa.Value)
+		collect = func(v ssa.Value) {
+			if web[v] {
+				return
+			}
+			if p, ok := v.(*ssa.Phi); ok {
+				web[v] = true
+				for _, e := range p.Edges {
+					collect(e)
+				}
+			}
+		}
+		collect(phi)
+		nInc, other := 0, 0
+		for v := range web {
+			for _, e := range v.(*ssa.Phi).Edges {
+				if web[e] {
+					continue
+				}
+				if k, isC := constInt(e); isC && k == 0 {
+					continue
+				}
+				if bo, ok := e.(*ssa.BinOp); ok && bo.Op == token.ADD && web[bo.X] {
+					if k, isC := constInt(bo.Y); isC && k == 1 && instrDominates(ctor, bo) && bo.Block() == ctor.Block() {
+						nInc++
+						continue
+					}
+				}
+				other++
+			}
+		}
+		incOK = nInc == 1 && other == 0
+	}
+	c.Check(incOK, rule, fam+":signal:counter", ctor.Pos(), "the cell counter starts at 0 and advances by one exactly when a cell is constructed", "the cell counter does not advance exactly once per constructed cell")
+	// appended to signalCells[i]
+	appOK := false
+	for _, r := range referrers(ctor) {
+		if ld, ok := r.(*ssa.UnOp); ok {
+			for _, ap := range traceAppend(ld) {
+				// append(signalCells[i], cell) stored back to signalCells[i]
+				if base, ok := ap.Call.Args[0].(*ssa.UnOp); ok {
+					if ia, ok := base.X.(*ssa.IndexAddr); ok && ia.Index == iIdx {
+						for _, r2 := range referrers(ap) {
+							if st, ok := r2.(*ssa.Store); ok {
+								if ia2, ok := st.Addr.(*ssa.IndexAddr); ok && ia2.Index == iIdx && ia2.X == ia.X {
+									appOK = true
+								}
+							}
+						}
+					}
+				}
+			}
+		}
+	}
+	c.Check(appOK, rule, fam+":signal:appended-to-row-i", ctor.Pos(), "the cell is appended to signalCells[i]", "the constructed cell is not appended to the row of its satellite")
+}
+
+// checkSectionStarts: the family's GetMessage passes the header's end position to the satellite
+// reader and that plus Nsat*cell length to the signal reader.
+func checkSectionStarts(c *Ctx, rule, fam string, A *Aff, msg, getHdr, sat, sig *ssa.Function, satBits int64) {
+	var hdrCall, satCall, sigCall *ssa.Call
+	eachInstr(msg, func(ins ssa.Instruction) {
+		if call, ok := ins.(*ssa.Call); ok {
+			switch call.Call.StaticCallee() {
+			case getHdr:
+				hdrCall = call
+			case sat:
+				satCall = call
+			case sig:
+				sigCall = call
+			}
+		}
+	})
+	if hdrCall == nil || satCall == nil || sigCall == nil {
+		c.Fail(rule, fam+":sections", msg.Pos(), "unresolved", "header/satellite/signal reader calls not found in GetMessage")
+		return
+	}
+	var hdrV, posV, satsV ssa.Value
+	for _, r := range referrers(hdrCall) {
+		if ex, ok := r.(*ssa.Extract); ok {
+			if ex.Index == 0 {
+				hdrV = ex
+			}
+			if ex.Index == 1 {
+				posV = ex
+			}
+		}
+	}
+	for _, r := range referrers(satCall) {
+		if ex, ok := r.(*ssa.Extract); ok && ex.Index == 0 {
+			satsV = ex
+		}
+	}
+	okSat := satCall.Call.Args[0] == hdrCall.Call.Args[0] && satCall.Call.Args[1] == posV
+	if f, base := loadedField(satCall.Call.Args[2]); f == nil || f.Name() != "Satellites" || root(base) != hdrV {
+		okSat = false
+	}
+	c.Check(okSat, rule, fam+":satellites-start", satCall.Pos(), "satellite cells start at the header's end position, one per header.Satellites entry", "the satellite reader is not given (frame, header end position, header.Satellites)")
+	okSig := sigCall.Call.Args[0] == hdrCall.Call.Args[0] && sigCall.Call.Args[2] == hdrV && sigCall.Call.Args[3] == satsV && posV != nil && satsV != nil
+	if okSig {
+		want := A.Lin(posV).Add(A.LenOf(satsV).Scale(satBits))
+		okSig = provEq(A, sigCall.Block(), A.Lin(sigCall.Call.Args[1]), want)
+	}
+	c.Check(okSig, rule, fam+":signals-start", sigCall.Pos(), fmt.Sprintf("signal cells start at header end + %d * Nsat", satBits), "the signal reader is not given the position header end + Nsat * satellite cell length")
+}
+
+// checkMSMRejections (C04-R6): every error exit of the MSM decode path is one of the allowed reasons.
+func checkMSMRejections(c *Ctx, rule string, A *Aff, hl *headerLemma) {
+	P := c.P
+	fns := decoderFuncs(P, "msm")
+	seen := map[string]bool{}
+	for _, fn := range fns {
+		if fn.Name() == "GetNumberOfSignalCells" {
+			continue
+		}
+		buf := byteSliceParam(fn)
+		for i, r := range returnsOf(fn) {
+			n := len(r.Results)
+			if n == 0 || !isErrorType(r.Results[n-1].Type()) || isNilConst(r.Results[n-1]) {
+				continue
+			}
+			label := fmt.Sprintf("%s:error-exit#%d", P.FnKey(fn), i+1)
+			fs := dominatingFacts(r.Block())
+			kind := ""
+			if len(fs) > 0 {
+				ft := fs[0]
+				// propagated callee error
+				if bo, ok := ft.Cond.(*ssa.BinOp); ok && (isNilConst(bo.X) || isNilConst(bo.Y)) {
+					x := bo.X
+					if isNilConst(x) {
+						x = bo.Y
+					}
+					if ex, ok := x.(*ssa.Extract); ok {
+						if call, ok := ex.Tuple.(*ssa.Call); ok && call.Call.StaticCallee() != nil && P.InModule(call.Call.StaticCallee()) && r.Results[n-1] == ssa.Value(ex) {
+							kind = "propagated"
+						}
+					}
+				}
+				if kind == "" {
+					kind = classifyMSMGuard(A, hl, fn, buf, ft)
+				}
+			}
+			if kind == "" {
+				c.Fail(rule, label+":unlisted-rejection", r.Pos(), "refuted", "an MSM message is rejected for a reason that is not one of {header too short, not an MSM type, cell mask > 64, too short for the cell mask, wrong family, satellite overrun, signal overrun, continued message without a cell}: some well-formed message is rejected")
+				continue
+			}
+			seen[kind] = true
+			c.OK(rule, label+":"+kind, r.Pos(), "allowed rejection reason")
+		}
+	}
+	for _, k := range []string{"too-short", "not-msm-type", "cell-mask>64", "wrong-family", "signal-overrun", "continued-without-cell"} {
+		c.Check(seen[k], rule, "reason-present("+k+")", token.NoPos, "rejection implemented", "allowed rejection reason is missing: "+k)
+	}
+}
+
+func classifyMSMGuard(A *Aff, hl *headerLemma, fn *ssa.Function, buf *ssa.Parameter, ft EdgeFact) string {
+	// family test: !MSM4(type) / !MSM7(type)
+	if call, ok := ft.Cond.(*ssa.Call); ok && !ft.Val {
+		if f := call.Call.StaticCallee(); f != nil && (f.Name() == "MSM4" || f.Name() == "MSM7") {
+			return "wrong-family"
+		}
+	}
+	if u, ok := ft.Cond.(*ssa.UnOp); ok && u.Op == token.NOT && ft.Val {
+		if call, ok := u.X.(*ssa.Call); ok {
+			if f := call.Call.StaticCallee(); f != nil && (f.Name() == "MSM4" || f.Name() == "MSM7") {
+				return "wrong-family"
+			}
+		}
+	}
+	bo, ok := ft.Cond.(*ssa.BinOp)
+	if !ok {
+		return ""
+	}
+	// type switch default: all comparisons with MSM constants failed -> reached via a chain of != ; accept an
+	// equality test of the type value with a constant (not equal edge)
+	if (bo.Op == token.EQL && !ft.Val) || (bo.Op == token.NEQ && ft.Val) {
+		if k, isC := constInt(bo.Y); isC && k >= 1074 && k <= 1137 {
+			return "not-msm-type"
+		}
+	}
+	if bo.Op == token.GTR && ft.Val {
+		if k, isC := constInt(bo.Y); isC && k == 64 {
+			return "cell-mask>64"
+		}
+	}
+	if !isInteger(bo.X.Type()) || buf == nil {
+		return ""
+	}
+	// length tests: the rejecting edge is a strict lower bound on a quantity that grows with len(buf)
+	cons := A.condCons(ft.Cond, ft.Val)
+	if len(cons) != 1 {
+		return ""
+	}
+	l := cons[0].L
+	lenSym := A.lenSym(buf)
+	coef, has := l.T[lenSym]
+	if has && coef.Sign() < 0 {
+		// "-k*len(buf) + ... >= 0": rejects short buffers
+		if strings.Contains(fn.Name(), "Signal") {
+			// distinguishes continued-without-cell (under MultipleMessage) from a generic shortage
+			return "too-short"
+		}
+		return "too-short"
+	}
+	// signal overrun: cellsAvailable < numSignalCells where cellsAvailable is a quotient of the bits left
+	if bo.Op == token.LSS && ft.Val {
+		if f, _ := loadedField(bo.Y); f == hl.numCells {
+			return "signal-overrun"
+		}
+	}
+	// continued message: bitsLeft < bitsPerCell under MultipleMessage
+	if bo.Op == token.LSS && ft.Val {
+		if k, isC := constInt(bo.Y); isC && (k == 48 || k == 80) {
+			return "continued-without-cell"
+		}
+	}
+	return ""
 }
